@@ -17,7 +17,7 @@ import shutil
 import subprocess
 from concurrent.futures import ThreadPoolExecutor
 
-from harness import asm, progs, vmlib
+from harness import asm, c02_streams, progs, vmlib
 from harness.common import BUILD, PY, VERIF, Check, Driver, env_child, report_broken_obligations, sx, wire
 
 CHILD = os.path.join(VERIF, "harness", "c02_child.py")
@@ -26,7 +26,7 @@ DOC = ["LIKELY_SAFE", "POSSIBLY_UNSAFE", "SUSPICIOUS", "LIKELY_UNSAFE",
 EVIL = asm.assemble([("GLOBAL", ("verif_sink", "record")), "MARK", ("STRING", "EVIL"), "TUPLE", "REDUCE", "STOP"])
 KINDS_BYTES = ["bytes", "bytearray"]
 KINDS_FILE = ["bytesio", "rawbytesio", "file", "nonseek", "nonseek_noattr", "swap", "swap_nonseek"]
-MODEL_KIND = {"bytes": "bytes", "bytearray": "bytes", "bytesio": "seek", "rawbytesio": "seek", "file": "seek",
+MODEL_KIND = {"flaky": "seek", "bytes": "bytes", "bytearray": "bytes", "bytesio": "seek", "rawbytesio": "seek", "file": "seek",
               "nonseek": "nonseek", "nonseek_noattr": "nonseek", "swap": "seek", "swap_nonseek": "nonseek"}
 PARSE_EXC = {"Empty": "EmptyPickleError", "Decode": "PickleDecodeError", "NotImpl": "NotImplementedError"}
 ANALYSIS_EXC = {"IndexError": {"IndexError"}, "KeyError": {"KeyError"}, "ValueError": {"ValueError"},
@@ -268,6 +268,71 @@ def _model_inputs(prefix):
     return ops, protos, stds, reprs
 
 
+def flaky_pairs():
+    """(first-read content A, re-read content B, label): same length, same token boundaries"""
+    A = asm.assemble
+    pairs = [
+        (A([("GLOBAL", ("collections", "OrderedDict")), "STOP"]),
+         A([("GLOBAL", ("collections", "defaultdict")), "STOP"]), "safe-global/other-safe-global"),
+        (A([("GLOBAL", ("collections", "deque")), "STOP"]),
+         A([("GLOBAL", ("verif_sink", "record")), "STOP"]), "safe-global/sink-global"),
+        (A([("GLOBAL", ("collections", "deque")), "EMPTY_TUPLE", "REDUCE", "STOP"]),
+         A([("GLOBAL", ("verif_sink", "record")), "EMPTY_TUPLE", "REDUCE", "STOP"]), "std-call/sink-call"),
+        (A([("PROTO", 2), ("GLOBAL", ("collections", "deque")), "EMPTY_TUPLE", "REDUCE", "STOP"]),
+         A([("PROTO", 2), ("GLOBAL", ("verif_sink", "record")), "EMPTY_TUPLE", "REDUCE", "STOP"]),
+         "proto+std-call/sink-call"),
+        (A([("BININT1", 1), "STOP"]), A([("BININT1", 7), "STOP"]), "int/other-int"),
+        (A([(S, "os"), (S, "getcwd"), "STACK_GLOBAL", "EMPTY_TUPLE", "REDUCE", "STOP"]),
+         A([(S, "os"), (S, "getpid"), "STACK_GLOBAL", "EMPTY_TUPLE", "REDUCE", "STOP"]), "os-call/other-os-call"),
+        (A([("GLOBAL", ("builtins", "len")), "MARK", ("BINUNICODE", "abc"), "TUPLE", "REDUCE", "STOP"]),
+         A([("GLOBAL", ("builtins", "len")), "MARK", ("BINUNICODE", "xyz"), "TUPLE", "REDUCE", "STOP"]),
+         "same-call/other-argument"),
+        (A([("GLOBAL", ("builtins", "len")), "MARK", "EMPTY_LIST", "TUPLE", "REDUCE", "STOP"]),
+         A([("GLOBAL", ("builtins", "len")), "MARK", "EMPTY_LIST", "TUPLE", "REDUCE", "STOP"]),
+         "consistent (A = B)"),
+        (pickle.dumps([1, "a", {"k": (2, 3)}], 2), pickle.dumps([1, "b", {"q": (2, 9)}], 2), "natural/other-natural"),
+        # the first parse succeeds but what it re-serialises to does NOT re-parse (an opcode fickling has no class
+        # for / an unknown opcode byte): a non-returning case; the stock unpickler would have called the sink first
+        (A([("GLOBAL", ("verif_sink", "record")), "EMPTY_TUPLE", "REDUCE", ("INT", 100), "STOP"]),
+         A([("GLOBAL", ("verif_sink", "record")), "EMPTY_TUPLE", "REDUCE"]) + b"F1.0\n.", "call+INT/call+FLOAT"),
+        (A([("GLOBAL", ("verif_sink", "record")), "EMPTY_TUPLE", "REDUCE", ("BININT1", 1), "STOP"]),
+         A([("GLOBAL", ("verif_sink", "record")), "EMPTY_TUPLE", "REDUCE"]) + b"\xff\x01.", "call+int/call+unknown-opcode"),
+    ]
+    out = []
+    for a, b, lab in pairs:
+        assert len(a) == len(b), lab
+        out.append((a, b, "flaky:" + lab))
+        if a != b:
+            out.append((b, a, "flaky:rev:" + lab))
+    return out
+
+
+def first_parse_dumps(a, b):
+    """what the first Pickled.load re-serialises a flaky stream to (the parse itself, run here where no hook is
+    ever installed), or None when it raises"""
+    from fickling.fickle import Pickled
+    try:
+        return Pickled.load(c02_streams.Flaky(a, b)).dumps()
+    except Exception:
+        return None
+
+
+def make_flaky_cases(rng, cases, tier):
+    for a, b, label in flaky_pairs():
+        d = first_parse_dumps(a, b)
+        if d is None:
+            continue
+        prefix = first_pickle(d)
+        for arming, thrs in (("direct", range(6)), ("hook", [0]), ("ctx", rng.sample(range(6), 2))):
+            for thr in thrs:
+                hist = rng.choice(HISTORIES) if arming != "direct" else []
+                cases.append({"id": len(cases), "label": label, "arming": arming, "thr": thr, "kind": "flaky",
+                              "hist": hist, "content": a.hex(), "off": 0, "evil": b.hex(),
+                              "first_parse_dumps": d.hex(),
+                              "prefix": prefix.hex() if prefix is not None else None})
+    return cases
+
+
 def make_cases(rng, inputs, tier):
     """input x threshold x stream kind x arming (see chk.rule)"""
     cases = []
@@ -306,7 +371,7 @@ def make_cases(rng, inputs, tier):
             for k in allk:
                 add(data, label, "hook", 0, k)
                 add(data, label, "ctx", rng.randrange(6), k)
-    return cases
+    return make_flaky_cases(rng, cases, tier)
 
 
 # ---------------------------------------------------------------- running
@@ -350,8 +415,11 @@ def model_line(case):
     dec, protos, stds, reprs = model_inputs(prefix)
     arming = {"direct": "direct", "direct_pos": "direct", "hook": "hook", "ctx": "ctx", "ctx_default": "ctx"}[case["arming"]]
     later = bytes.fromhex(case["evil"]) if case["evil"] is not None else content
+    # a stream that misbehaves during the parse: the model is told only which bytes the first parse
+    # re-serialises to (C02_bytes_executed_are_bytes_analysed: nothing else about it matters)
+    fp = ["dumps", bytes.fromhex(case["first_parse_dumps"])] if case["kind"] == "flaky" else "stable"
     return sx(["c02_load", arming, case["thr"], MODEL_KIND[case["kind"]], case["off"], content, later,
-               dec, protos, stds, reprs, list(case.get("hist") or [])])
+               dec, protos, stds, reprs, list(case.get("hist") or []), fp])
 
 
 def parse_events(text):
@@ -440,7 +508,7 @@ def compare(case, mline, real):
     return f"unparsed model line {mline[:60]}"
 
 
-GRAVE = ("something ran", "returned an object although", "no verdict")
+GRAVE = ("something ran", "returned an object although", "no verdict", "is not the program analysed")
 SERIOUS = ("after the analysis pass", "not the bytes analysed", "stock pickle.load", "differ")
 
 
@@ -470,6 +538,10 @@ def oracle_all(case, real):
             break
     if real["load_calls"] != 0:
         out.append("the stock pickle.load(file) ran on the caller's stream")
+    if real.get("loads_raw") and real.get("analysed_src") is not None and \
+            real.get("exec_src") != real.get("analysed_src"):
+        out.append(f"the program of the bytes executed is not the program analysed: analysed "
+                   f"`{real['analysed_src']!s:.160}` -- executed `{real.get('exec_src')!s:.160}`")
     ref = real.get("ref")
     prefix = case["prefix"]
     if ref is None or ref["verdict"][0] != "ok":
@@ -535,7 +607,7 @@ def summarise(case, real):
 
 def public_case(case, why):
     return {"oracle": why, **{k: case.get(k) for k in ("label", "arming", "hist", "thr", "kind", "content", "off",
-                                                        "evil", "prefix")},
+                                                        "evil", "prefix", "first_parse_dumps")},
             "threshold": DOC[case["thr"]]}
 
 
@@ -554,9 +626,10 @@ def main(tier, seed):
         "the stock unpickler, pickletools' argument decoding, constant repr and is_std_module are Section variables of "
         "every theorem (the theorems hold for ALL of them); in the correspondence they are instantiated with RefVM on "
         "the abstract program, harness/vmlib.abstract_ops, ast.unparse and fickle.is_std_module",
-        "the caller's stream is modelled as a content oracle indexed by PHASE of the call (during Pickled.load / during "
-        "check_safety / at unpickling time); a stream whose content changes between two reads INSIDE Pickled.load is "
-        "outside the model and outside C02's quantifier (coverage.observations reproduces it on the real code)",
+        "the result of the first Pickled.load(file) is universally quantified in the theorems (any opcode list / "
+        "error: any stream, including one that answers a re-read differently); well-behaved streams are a content "
+        "oracle indexed by phase of the call; in the correspondence a flaky stream enters the model only through the "
+        "bytes its first parse re-serialises to (computed by running Pickled.load on the same stream class)",
         "the parse itself is Codec.load_model (C06: reader widths written from CPython 3.12 pickletools; argument "
         "content validation enters through [decode]); the verdict is Analysis.analyze + verdict (C04/C19 tie)",
         "loader.load's print_results / json_output_path / *args / **kwargs are not modelled (defaults only)",
@@ -636,24 +709,6 @@ def main(tier, seed):
                     not c["label"].startswith("ladder"):
                 picked.add(key)
                 chk.sample(summarise(c, r))
-
-        # ---- observation (NOT part of C02's quantifier, DESIGN section 4): content that changes DURING the parse ----
-        try:
-            a = asm.assemble([("GLOBAL", ("collections", "OrderedDict")), "STOP"])
-            b = asm.assemble([("GLOBAL", ("collections", "defaultdict")), "STOP"])
-            oc = {"id": 0, "label": "observation:flaky", "arming": "direct", "thr": 0, "kind": "flaky", "hist": [],
-                  "content": a.hex(), "off": 0, "evil": b.hex(), "prefix": a.hex()}
-            orr = run_child([oc], scratch)[0]
-            chk.extra["observations"] = [{
-                "what": "a stream that returns different bytes for a region fickling re-reads WITHIN Pickled.load "
-                        "(the back-fill of variable-width opcodes) makes the analysed argument and the executed "
-                        "bytes differ; C02 quantifies over changes after the parse only, so this is recorded, not "
-                        "alarmed on",
-                "analysed": "collections.OrderedDict", "served_on_re_read": "collections.defaultdict", "verdict_of_analysed": orr.get("ref", {}).get("verdict"),
-                "outcome": orr["r"], "find_class_during_load": orr.get("events"), "sink_calls": orr.get("sink"),
-                "reproduced": orr["r"] == "RET" and orr.get("events") == [["collections", "defaultdict"]]}]
-        except Exception as e:  # an observation must never fail the check
-            chk.extra["observations"] = [{"what": "flaky-stream observation could not be run", "error": repr(e)}]
 
         def search():
             for m in bad:
